@@ -2,3 +2,530 @@
 From stdpp Require Import strings gmap sets fin_sets pretty.
 From CG Require Import Fold Model.Limit.
 Open Scope string_scope.
+
+(* ------------------------------------------------------------------ equivalence bookkeeping *)
+Lemma agrees_mono (S S' : gset string) v v' : S ⊆ S' → agrees S' v v' → agrees S v v'.
+Proof. intros Hs H n Hn. apply H. set_solver. Qed.
+Lemma agrees_trans (S : gset string) v1 v2 v3 : agrees S v1 v2 → agrees S v2 v3 → agrees S v1 v3.
+Proof. intros H1 H2 n Hn. rewrite H1 by done. by apply H2. Qed.
+Lemma agrees_sym (S : gset string) v1 v2 : agrees S v1 v2 → agrees S v2 v1.
+Proof. intros H n Hn. symmetry. by apply H. Qed.
+Lemma agrees_refl (S : gset string) v : agrees S v v.
+Proof. by intros n Hn. Qed.
+
+Lemma equiv_on_refl S c : equiv_on S c c.
+Proof. split; intros v Hv; exists v; split; auto using agrees_refl. Qed.
+Lemma equiv_on_trans (S S' : gset string) c1 c2 c3 : S ⊆ S' → equiv_on S c1 c2 → equiv_on S' c2 c3 → equiv_on S c1 c3.
+Proof.
+  intros Hs [H12 H21] [H23 H32]. split.
+  - intros v3 Hv3. destruct (H23 v3 Hv3) as (v2 & Hv2 & Ha2). destruct (H12 v2 Hv2) as (v1 & Hv1 & Ha1).
+    exists v1. split; [done|]. eapply agrees_trans; [done|]. by eapply agrees_mono.
+  - intros v1 Hv1. destruct (H21 v1 Hv1) as (v2 & Hv2 & Ha2). destruct (H32 v2 Hv2) as (v3 & Hv3 & Ha3).
+    exists v3. split; [done|]. eapply agrees_trans; [|done]. by eapply agrees_mono.
+Qed.
+
+(* ------------------------------------------------------------------ uid returns a fresh name *)
+Definition uid_next (i : N) : N := if (i <? 10)%N then (i + 1)%N else (i * 7)%N.
+Lemma uid_next_gt i : (i < uid_next i)%N.
+Proof. unfold uid_next. destruct (N.ltb_spec i 10); lia. Qed.
+Definition uid_cand (n : string) (i : N) : string := n ++ "_" ++ pretty i.
+Lemma uid_cand_inj n i j : uid_cand n i = uid_cand n j → i = j.
+Proof. unfold uid_cand. intros H. apply (inj (String.append n)) in H. apply (inj (String.append "_")) in H. by apply (inj pretty) in H. Qed.
+
+Lemma uid_loop_pigeon (used : gset string) n : ∀ fuel i (seen : gset string),
+  seen ⊆ used → (∀ x, x ∈ seen → ∃ j, (j < i)%N ∧ x = uid_cand n j) →
+  uid_loop fuel used n i ∈ used → size seen + fuel + 1 ≤ size used.
+Proof.
+  induction fuel as [|fuel IH]; intros i seen Hsub Hseen Hin; simpl in Hin; fold (uid_cand n i) in Hin.
+  - assert (uid_cand n i ∉ seen). { intros (j & Hj & He)%Hseen. apply uid_cand_inj in He. lia. }
+    assert (size ({[uid_cand n i]} ∪ seen) ≤ size used) by (apply subseteq_size; set_solver).
+    rewrite size_union, size_singleton in * by set_solver. lia.
+  - case_bool_decide as Hc; [|done].
+    assert (uid_cand n i ∉ seen). { intros (j & Hj & He)%Hseen. apply uid_cand_inj in He. lia. }
+    fold (uid_next i) in Hin.
+    specialize (IH (uid_next i) ({[uid_cand n i]} ∪ seen)).
+    rewrite size_union, size_singleton in IH by set_solver.
+    assert (1 + size seen + fuel + 1 ≤ size used); [|lia]. apply IH; [set_solver| |done].
+    intros x [->%elem_of_singleton|Hx]%elem_of_union.
+    + exists i. split; [apply uid_next_gt|done].
+    + destruct (Hseen x Hx) as (j & Hj & ->). exists j. split; [|done]. pose proof (uid_next_gt i). lia.
+Qed.
+Lemma uid_in_fresh (used : gset string) n : uid_in used n ∉ used.
+Proof.
+  unfold uid_in. case_bool_decide; [|done]. intros Hin.
+  pose proof (uid_loop_pigeon used n (S (size used)) 0%N ∅) as Hp. rewrite size_empty in Hp.
+  assert (0 + S (size used) + 1 ≤ size used); [|lia]. apply Hp; [set_solver|set_solver|done].
+Qed.
+Lemma uid_fresh (c : circuit) n : uid c n ∉ dom c.
+Proof. apply uid_in_fresh. Qed.
+
+(* ------------------------------------------------------------------ gate-level facts *)
+Lemma gate_val_pair t v f0 f1 : f0 ≠ f1 → g_inv t = false → gate_val t v {[f0; f1]} = g_op t (v f0) (v f1).
+Proof.
+  intros Hne Hinv. unfold gate_val. rewrite Hinv, Bool.xorb_false_l. fold (gfold t (v <$> elements ({[f0; f1]} : gset string))).
+  rewrite (gfold_split t v _ f0) by set_solver. f_equal.
+  replace (({[f0; f1]} : gset string) ∖ {[f0]}) with ({[f1]} : gset string) by (apply leibniz_equiv; set_solver).
+  rewrite elements_singleton. simpl. apply g_op_unit.
+Qed.
+Lemma gate_val_single t v f : g_inv t = false → gate_val t v {[f]} = v f.
+Proof. intros Hinv. unfold gate_val. rewrite Hinv, Bool.xorb_false_l, elements_singleton. simpl. apply g_op_unit. Qed.
+(* an operand n is replaced by a node m that carries the same value *)
+Lemma gate_val_replace t v (s : gset string) n m : n ∈ s → m ∉ s → v m = v n →
+  gate_val t v ({[m]} ∪ s ∖ {[n]}) = gate_val t v s.
+Proof.
+  intros Hn Hm Hv. unfold gate_val. f_equal. fold (gfold t (v <$> elements ({[m]} ∪ s ∖ {[n]}))). fold (gfold t (v <$> elements s)).
+  rewrite (gfold_split t v _ m) by set_solver. rewrite (gfold_split t v s n) by done. rewrite Hv. f_equal.
+  f_equal. f_equal. f_equal. apply leibniz_equiv. set_solver.
+Qed.
+
+Definition plain_gate (t : gtype) : Prop := t ≠ C0 ∧ t ≠ C1.
+Lemma node_ok_gate v n i : is_free i = false → n_ty i ≠ C0 → n_ty i ≠ C1 →
+  node_ok v n i ↔ v n = gate_val (n_ty i) v (n_fi i).
+Proof. intros Hf H0 H1. unfold node_ok. rewrite Hf. destruct (n_ty i); done. Qed.
+Lemma node_ok_ext v v' n i : v n = v' n → agrees (n_fi i) v v' → node_ok v n i → node_ok v' n i.
+Proof.
+  intros Hn Ha. unfold node_ok. destruct (is_free i); [done|].
+  assert (∀ t, gate_val t v (n_fi i) = gate_val t v' (n_fi i)) as Hg by (intros; by apply gate_val_ext).
+  destruct (n_ty i); rewrite <- ?Hn, <- ?Hg; done.
+Qed.
+Lemma is_free_upd_fi f i : (n_fi i = ∅ ↔ f (n_fi i) = ∅) → is_free (upd_fi f i) = is_free i.
+Proof.
+  intros H. unfold is_free, upd_fi; simpl. destruct (n_ty i); try done; apply bool_decide_ext; done.
+Qed.
+Lemma node_ok_replace v x i n m : n ∈ n_fi i → m ∉ n_fi i → v m = v n →
+  node_ok v x (upd_fi (λ s, {[m]} ∪ s ∖ {[n]}) i) ↔ node_ok v x i.
+Proof.
+  intros Hn Hm Hv. unfold node_ok. rewrite is_free_upd_fi by set_solver.
+  destruct (is_free i); [done|]. cbn [upd_fi n_ty n_fi].
+  assert (∀ t, gate_val t v ({[m]} ∪ n_fi i ∖ {[n]}) = gate_val t v (n_fi i)) as Hg by (intros; by apply gate_val_replace).
+  destruct (n_ty i); rewrite ?Hg; done.
+Qed.
+
+(* ------------------------------------------------------------------ graph-level facts *)
+Lemma consistent_insert_fresh (c : circuit) m i v : c !! m = None →
+  consistent (<[m := i]> c) v ↔ node_ok v m i ∧ consistent c v.
+Proof.
+  intros Hm. unfold consistent. split.
+  - intros H. split; [apply H; by rewrite lookup_insert|].
+    intros n j Hn. apply H. rewrite lookup_insert_ne; [done|congruence].
+  - intros [H1 H2] n j Hn. destruct (decide (n = m)) as [->|Hne].
+    + rewrite lookup_insert in Hn. by simplify_eq.
+    + rewrite lookup_insert_ne in Hn by done. eauto.
+Qed.
+Lemma consistent_insert_over (c : circuit) n i i' v : c !! n = Some i →
+  (node_ok v n i' ↔ node_ok v n i) → consistent (<[n := i']> c) v ↔ consistent c v.
+Proof.
+  intros Hn Hok. unfold consistent. split; intros H x j Hx.
+  - destruct (decide (x = n)) as [->|Hne].
+    + simplify_eq. apply Hok. apply H. by rewrite lookup_insert.
+    + apply H. by rewrite lookup_insert_ne.
+  - destruct (decide (x = n)) as [->|Hne].
+    + rewrite lookup_insert in Hx. simplify_eq. apply Hok. by apply H.
+    + rewrite lookup_insert_ne in Hx by done. by apply H.
+Qed.
+Lemma closed_not_in (c : circuit) m x i : closed c → m ∉ dom c → c !! x = Some i → m ∉ n_fi i.
+Proof. intros Hcl Hm Hx Hin. apply Hm. eapply Hcl; eauto. Qed.
+(* changing the value of a name that is neither a node nor an operand changes nothing *)
+Lemma consistent_fresh_ext (c : circuit) v v' m : closed c → m ∉ dom c → (∀ x, x ≠ m → v' x = v x) →
+  consistent c v → consistent c v'.
+Proof.
+  intros Hcl Hm Hv Hc n i Hn. eapply node_ok_ext; [| |by apply Hc].
+  - symmetry. apply Hv. intros ->. apply Hm. by apply elem_of_dom.
+  - intros f Hf. symmetry. apply Hv. intros ->. by eapply closed_not_in.
+Qed.
+
+Lemma lookup_reroute c n m L x :
+  reroute c n m L !! x = (λ i, if bool_decide (x ∈ L) then upd_fi (λ s, {[m]} ∪ s ∖ {[n]}) i else i) <$> c !! x.
+Proof. unfold reroute. rewrite map_lookup_imap. by destruct (c !! x). Qed.
+Lemma dom_reroute c n m L : dom (reroute c n m L) = dom c.
+Proof.
+  apply set_eq. intros x. rewrite !elem_of_dom, lookup_reroute. destruct (c !! x); simpl; split; intros [? ?]; eauto; done.
+Qed.
+Lemma reroute_consistent c n m (L : gset string) v : closed c → m ∉ dom c → L ⊆ fanout c n → v m = v n →
+  consistent (reroute c n m L) v ↔ consistent c v.
+Proof.
+  intros Hcl Hm HL Hv.
+  assert (∀ x i, c !! x = Some i → x ∈ L → n ∈ n_fi i ∧ m ∉ n_fi i) as HLx.
+  { intros x i Hx HxL. split; [|by eapply closed_not_in].
+    apply HL in HxL. apply elem_of_fanout in HxL as (j & Hj & ?). by simplify_eq. }
+  unfold consistent. split; intros H x i Hx.
+  - specialize (H x). rewrite lookup_reroute, Hx in H. simpl in H. specialize (H _ eq_refl).
+    case_bool_decide as HxL; [|done]. destruct (HLx x i Hx HxL). by apply node_ok_replace in H.
+  - rewrite lookup_reroute in Hx. destruct (c !! x) as [j|] eqn:Hj; [|done]. simpl in Hx. simplify_eq.
+    case_bool_decide as HxL; [|by apply H]. destruct (HLx x j Hj HxL). apply node_ok_replace; auto.
+Qed.
+
+(* attributes: old nodes keep type and output mark, new nodes are unmarked non-inputs *)
+Definition same_attrs (c c' : circuit) : Prop :=
+  ∀ x, match c !! x with
+       | Some i => ∃ i', c' !! x = Some i' ∧ n_ty i' = n_ty i ∧ n_out i' = n_out i
+       | None => match c' !! x with None => True | Some i' => n_ty i' ≠ Input ∧ n_out i' = false end
+       end.
+Lemma same_attrs_io c c' : same_attrs c c' → inputs c' = inputs c ∧ outputs c' = outputs c.
+Proof.
+  intros H. split; apply set_eq; intros x; rewrite ?elem_of_inputs, ?elem_of_outputs; specialize (H x); split.
+  - intros (i' & Hx & Ht). destruct (c !! x) as [i|].
+    + destruct H as (i'' & ? & ? & ?). simplify_eq. exists i. split; congruence.
+    + rewrite Hx in H. by destruct H.
+  - intros (i & Hx & Ht). rewrite Hx in H. destruct H as (i' & ? & ? & ?). exists i'. split; congruence.
+  - intros (i' & Hx & Ht). destruct (c !! x) as [i|].
+    + destruct H as (i'' & ? & ? & ?). simplify_eq. exists i. split; congruence.
+    + rewrite Hx in H. destruct H. congruence.
+  - intros (i & Hx & Ht). rewrite Hx in H. destruct H as (i' & ? & ? & ?). exists i'. split; congruence.
+Qed.
+Lemma same_attrs_dom c c' : same_attrs c c' → dom c ⊆ dom c'.
+Proof. intros H x [i Hx]%elem_of_dom. specialize (H x). rewrite Hx in H. destruct H as (i' & ? & _). apply elem_of_dom. eauto. Qed.
+
+(* ------------------------------------------------------------------ what the table obligation gives *)
+Definition six : list gtype := [And; Nand; Or; Nor; Xor; Xnor].
+Lemma assoc_Some_in l t b : assoc l t = Some b → (t, b) ∈ l.
+Proof.
+  induction l as [|[a b'] l IH]; simpl; [done|]. case_decide as Ha.
+  - intros [= ->]. subst. left.
+  - intros H. right. auto.
+Qed.
+Lemma tables_parts T : limit_tables_ok T = true →
+  (∀ t, t ∈ six → assoc (t_gatemap T) t = Some (base_op t)) ∧ (∀ p, p ∈ t_gatemap T → p.1 ∈ six) ∧
+  t_helper T = Buf ∧ t_in_min T = 2 ∧ t_out_min T = 2.
+Proof.
+  unfold limit_tables_ok. rewrite !andb_true_iff. intros (((((H1 & H2) & _) & H4) & H5) & H6).
+  rewrite forallb_forall in H1, H2. split; [|split; [|split; [|split]]].
+  - intros t Ht. apply elem_of_list_In in Ht. apply H1 in Ht. by apply bool_decide_eq_true in Ht.
+  - intros p Hp. apply elem_of_list_In in Hp. apply H2 in Hp. by apply bool_decide_eq_true in Hp.
+  - by apply bool_decide_eq_true in H4.
+  - by apply Nat.eqb_eq in H5.
+  - by apply Nat.eqb_eq in H6.
+Qed.
+Lemma tables_gatemap T t t' : limit_tables_ok T = true → assoc (t_gatemap T) t = Some t' → t ∈ six ∧ t' = base_op t.
+Proof.
+  intros (H1 & H2 & _)%tables_parts Ha. pose proof (assoc_Some_in _ _ _ Ha) as Hin. apply H2 in Hin. simpl in Hin.
+  split; [done|]. apply H1 in Hin. congruence.
+Qed.
+Lemma six_facts t : t ∈ six →
+  g_inv (base_op t) = false ∧ g_op (base_op t) = g_op t ∧ base_op t ≠ C0 ∧ base_op t ≠ C1 ∧ base_op t ≠ Input ∧
+  t ≠ C0 ∧ t ≠ C1 ∧ (∀ o fi, is_free (mk_node (base_op t) o fi) = false) ∧ (∀ i, n_ty i = t → is_free i = false).
+Proof.
+  unfold six. rewrite !elem_of_cons, elem_of_nil.
+  intros [->|[->|[->|[->|[->|[->|[]]]]]]]; repeat split; try done; intros i Hi; unfold is_free; by rewrite Hi.
+Qed.
+
+Ltac top_if := match goal with |- (if ?b then _ else _) = _ → _ => destruct b eqn:? end.
+
+(* ------------------------------------------------------------------ one limit_fanin step *)
+Definition regrouped (c : circuit) (n : string) (inf : ninfo) (t' : gtype) (m f0 f1 : string) : circuit :=
+  <[m := mk_node t' false {[f0; f1]}]> (<[n := upd_fi (λ s, {[m]} ∪ s ∖ {[f0; f1]}) inf]> c).
+
+Lemma fanin_step_inv T c k n f0 f1 i c' : fanin_step T c k n f0 f1 i = Ok c' →
+  ∃ inf t' m, c !! n = Some inf ∧ k < size (n_fi inf) ∧ f0 ≠ f1 ∧ f0 ∈ n_fi inf ∧ f1 ∈ n_fi inf ∧
+    assoc (t_gatemap T) (n_ty inf) = Some t' ∧ m ∉ dom c ∧ c' = regrouped c n inf t' m f0 f1.
+Proof.
+  unfold fanin_step. destruct (c !! n) as [inf|]; [|done].
+  destruct (k <? size (n_fi inf))%nat eqn:Hk; [|done]. simpl.
+  destruct (bool_decide (f0 = f1)) eqn:E1; [done|]. destruct (bool_decide (f0 ∈ n_fi inf)) eqn:E2; [|done].
+  destruct (bool_decide (f1 ∈ n_fi inf)) eqn:E3; [|done]. simpl.
+  destruct (assoc (t_gatemap T) (n_ty inf)) as [t'|] eqn:Ha; [|done].
+  destruct (is_multi t'); [|done]. simpl. destruct (starts_digit _); [done|].
+  top_if; [done|]. intros [= <-].
+  exists inf, t', (uid c (n ++ t_in_suffix T ++ pretty i)). split_and!; try done.
+  - by apply Nat.ltb_lt.
+  - by apply bool_decide_eq_false in E1.
+  - by apply bool_decide_eq_true in E2.
+  - by apply bool_decide_eq_true in E3.
+  - apply uid_fresh.
+Qed.
+
+Lemma regrouped_spec c n inf m f0 f1 : closed c → c !! n = Some inf → f0 ≠ f1 → f0 ∈ n_fi inf → f1 ∈ n_fi inf →
+  m ∉ dom c → n_ty inf ∈ six →
+  let c' := regrouped c n inf (base_op (n_ty inf)) m f0 f1 in
+  closed c' ∧ same_attrs c c' ∧ equiv_on (dom c) c c'.
+Proof.
+  intros Hcl Hn Hne H0 H1 Hm Hsix c'.
+  destruct (six_facts _ Hsix) as (Hinv & Hop & Hb0 & Hb1 & HbI & Ht0 & Ht1 & Hfree' & Hfree).
+  assert (Hnm : n ≠ m). { intros ->. apply Hm. by apply elem_of_dom. }
+  assert (Hmfi : m ∉ n_fi inf) by (by eapply closed_not_in).
+  assert (Hf0m : f0 ≠ m) by (intros ->; done). assert (Hf1m : f1 ≠ m) by (intros ->; done).
+  set (inf' := upd_fi (λ s, {[m]} ∪ s ∖ {[f0; f1]}) inf).
+  assert (Hmid : (<[n := inf']> c) !! m = None).
+  { rewrite lookup_insert_ne by done. by apply not_elem_of_dom. }
+  assert (Hfi' : is_free inf' = false) by (by apply Hfree).
+  (* consistency of the new circuit, spelled out *)
+  assert (Hchar : ∀ v, consistent c' v ↔
+            v m = g_op (n_ty inf) (v f0) (v f1) ∧ v n = gate_val (n_ty inf) v ({[m]} ∪ n_fi inf ∖ {[f0; f1]}) ∧
+            ∀ x j, x ≠ n → c !! x = Some j → node_ok v x j).
+  { intros v. unfold c', regrouped. fold inf'. rewrite consistent_insert_fresh by done.
+    rewrite node_ok_gate by (simpl; auto). simpl. rewrite gate_val_pair, Hop by done.
+    split.
+    - intros (Hvm & Hc). split; [done|]. split.
+      + specialize (Hc n inf'). rewrite lookup_insert in Hc. specialize (Hc eq_refl).
+        apply node_ok_gate in Hc; auto.
+      + intros x j Hx Hj. apply Hc. by rewrite lookup_insert_ne.
+    - intros (Hvm & Hvn & Hrest). split; [done|]. intros x j Hx. destruct (decide (x = n)) as [->|Hxn].
+      + rewrite lookup_insert in Hx. simplify_eq. apply node_ok_gate; auto.
+      + rewrite lookup_insert_ne in Hx by done. eauto. }
+  split; [|split].
+  - (* closed *)
+    intros x j f Hx Hf. unfold c', regrouped in *. rewrite !dom_insert.
+    destruct (decide (f = m)) as [->|Hfm]; [clear; set_solver|].
+    assert (Hfd : f ∈ dom c); [|clear -Hfd; set_solver].
+    destruct (decide (x = m)) as [->|Hxm].
+    + rewrite lookup_insert in Hx. simplify_eq. simpl in Hf.
+      apply elem_of_union in Hf as [Hf|Hf]; apply elem_of_singleton in Hf; subst; eapply Hcl; eauto.
+    + rewrite lookup_insert_ne in Hx by done. destruct (decide (x = n)) as [->|Hxn].
+      * rewrite lookup_insert in Hx. simplify_eq. simpl in Hf.
+        apply elem_of_union in Hf as [Hf|Hf]; [by apply elem_of_singleton in Hf|].
+        apply elem_of_difference in Hf as [Hf _]. eapply Hcl; eauto.
+      * rewrite lookup_insert_ne in Hx by done. eapply Hcl; eauto.
+  - (* attributes *)
+    intros x. unfold c', regrouped. destruct (decide (x = m)) as [->|Hxm].
+    + rewrite lookup_insert. apply not_elem_of_dom in Hm. rewrite Hm. simpl. done.
+    + rewrite lookup_insert_ne by done. destruct (decide (x = n)) as [->|Hxn].
+      * rewrite lookup_insert, Hn. eexists. split; [done|]. done.
+      * rewrite lookup_insert_ne by done. destruct (c !! x) as [j|]; [|done]. eauto.
+  - (* same behaviours *)
+    split.
+    + intros v' Hv'. exists v'. split; [|apply agrees_refl]. apply Hchar in Hv' as (Hvm & Hvn & Hrest).
+      intros x j Hx. destruct (decide (x = n)) as [->|Hxn]; [|eauto]. simplify_eq.
+      apply node_ok_gate; auto. rewrite Hvn. by apply regroup.
+    + intros v Hv. set (v' := λ x, if decide (x = m) then g_op (n_ty inf) (v f0) (v f1) else v x).
+      assert (Hv'x : ∀ x, x ≠ m → v' x = v x) by (intros x Hx; unfold v'; by rewrite decide_False).
+      exists v'. split.
+      * pose proof (consistent_fresh_ext c v v' m Hcl Hm Hv'x Hv) as Hcv'.
+        apply Hchar. split; [|split].
+        -- unfold v' at 1. rewrite decide_True by done. by rewrite !Hv'x.
+        -- pose proof (Hcv' n inf Hn) as Hnok. apply node_ok_gate in Hnok; auto. rewrite Hnok. symmetry. apply regroup; auto.
+           unfold v' at 1. rewrite decide_True by done. by rewrite !Hv'x.
+        -- intros x j _ Hx. by apply Hcv'.
+      * intros x Hx. apply Hv'x. intros ->. done.
+Qed.
+
+(* ------------------------------------------------------------------ limit_fanin: every accepted run *)
+Lemma fanin_steps_spec T : limit_tables_ok T = true → ∀ steps c k st c', closed c → fanin_steps T c k st steps = Ok c' →
+  closed c' ∧ dom c ⊆ dom c' ∧ inputs c' = inputs c ∧ outputs c' = outputs c ∧ equiv_on (dom c) c c' ∧
+  ∀ n, size (fanin c' n) ≤ k.
+Proof.
+  intros HT. induction steps as [|[[n f0] f1] rest IH]; intros c k st c' Hcl; simpl.
+  - destruct (forallb _ _) eqn:Hb; [|done]. intros [= <-]. split_and!; try done; [apply equiv_on_refl|].
+    intros n. unfold fanin. destruct (c !! n) as [i|] eqn:Hn; [|cbn [fmap option_fmap option_map default]; rewrite size_empty; lia]. cbn [fmap option_fmap option_map default].
+    rewrite forallb_forall in Hb. specialize (Hb (n, i)). simpl in Hb. apply Nat.leb_le, Hb.
+    by apply elem_of_list_In, elem_of_map_to_list.
+  - destruct (next_index st n) as [[i st']|]; [|done].
+    destruct (fanin_step T c k n f0 f1 i) as [c1| | |] eqn:Hs; try done. simpl. intros Hrest.
+    apply fanin_step_inv in Hs as (inf & t' & m & Hn & Hk & Hne & H0 & H1 & Ha & Hm & ->).
+    destruct (tables_gatemap _ _ _ HT Ha) as [Hsix ->].
+    destruct (regrouped_spec c n inf m f0 f1 Hcl Hn Hne H0 H1 Hm Hsix) as (Hcl1 & Hat & Heq).
+    destruct (IH _ _ _ _ Hcl1 Hrest) as (Hcl' & Hd & Hi & Ho & Heq' & Hb).
+    destruct (same_attrs_io _ _ Hat) as [Hi1 Ho1]. pose proof (same_attrs_dom _ _ Hat) as Hd1.
+    split_and!; [done|by etrans|congruence|congruence| |done].
+    eapply equiv_on_trans; [exact Hd1|exact Heq|exact Heq'].
+Qed.
+
+Theorem limit_fanin_spec T C k steps C' : limit_tables_ok T = true → closed (c_g C) →
+  limit_fanin_run_with T C k steps = Ok C' →
+  2 ≤ k ∧ c_name C' = c_name C ∧ c_bbs C' = c_bbs C ∧ closed (c_g C') ∧ dom (c_g C) ⊆ dom (c_g C') ∧
+  inputs (c_g C') = inputs (c_g C) ∧ outputs (c_g C') = outputs (c_g C) ∧
+  (∀ n, size (fanin (c_g C') n) ≤ k) ∧ equiv_on (dom (c_g C)) (c_g C) (c_g C').
+Proof.
+  intros HT Hcl. unfold limit_fanin_run_with. destruct (tables_parts T HT) as (_ & _ & _ & Hmin & _). rewrite Hmin.
+  destruct (k <? 2)%nat eqn:Hk; [done|]. apply Nat.ltb_ge in Hk.
+  destruct (fanin_steps T (c_g C) k ls_init steps) as [c'| | |] eqn:Hs; try done. simpl. intros [= <-]. simpl.
+  destruct (fanin_steps_spec T HT _ _ _ _ _ Hcl Hs) as (? & ? & ? & ? & ? & ?). split_and!; done.
+Qed.
+Lemma limit_fanin_rejects T C k steps : limit_tables_ok T = true → k < 2 → limit_fanin_run_with T C k steps = Raise ValueError.
+Proof.
+  intros HT Hk. unfold limit_fanin_run_with. destruct (tables_parts T HT) as (_ & _ & _ & -> & _).
+  apply Nat.ltb_lt in Hk. by rewrite Hk.
+Qed.
+
+(* ------------------------------------------------------------------ one limit_fanout step *)
+Definition buffered (c : circuit) (n m : string) (h : gtype) (L : gset string) : circuit :=
+  <[m := mk_node h false {[n]}]> (reroute c n m L).
+
+Lemma fanout_step_inv T c k n f0 f1 i c' : fanout_step T c k n f0 f1 i = Ok c' →
+  ∃ m, n ∈ dom c ∧ k < size (fanout c n) ∧ f0 ≠ f1 ∧ f0 ∈ fanout c n ∧ f1 ∈ fanout c n ∧ m ∉ dom c ∧
+       c' = buffered c n m (t_helper T) {[f0; f1]}.
+Proof.
+  unfold fanout_step. destruct (c !! n) as [inf|] eqn:Hn; [|done]. cbv zeta.
+  destruct (k <? size (fanout c n))%nat eqn:Hk; [|done]. cbn [negb].
+  destruct (bool_decide (f0 = f1)) eqn:E1; [done|]. destruct (bool_decide (f0 ∈ fanout c n)) eqn:E2; [|done].
+  destruct (bool_decide (f1 ∈ fanout c n)) eqn:E3; [|done]. cbn [negb orb].
+  do 4 (top_if; [done|]). intros [= <-].
+  exists (uid c (n ++ t_out_suffix T ++ pretty i)). split_and!; try done.
+  - apply elem_of_dom. eauto.
+  - by apply Nat.ltb_lt.
+  - by apply bool_decide_eq_false in E1.
+  - by apply bool_decide_eq_true in E2.
+  - by apply bool_decide_eq_true in E3.
+  - apply uid_fresh.
+Qed.
+
+Lemma node_ok_buf v m o n : node_ok v m (mk_node Buf o {[n]}) ↔ v m = v n.
+Proof.
+  rewrite node_ok_gate; [|unfold is_free; simpl; apply bool_decide_eq_false; set_solver|done|done].
+  simpl. by rewrite gate_val_single.
+Qed.
+
+Lemma buffered_spec c n m (L : gset string) : closed c → n ∈ dom c → m ∉ dom c → L ⊆ fanout c n →
+  let c' := buffered c n m Buf L in closed c' ∧ same_attrs c c' ∧ equiv_on (dom c) c c'.
+Proof.
+  intros Hcl Hn Hm HL c'.
+  assert (Hnm : n ≠ m) by (intros ->; done).
+  assert (Hmid : reroute c n m L !! m = None). { apply not_elem_of_dom. by rewrite dom_reroute. }
+  assert (Hchar : ∀ v, consistent c' v ↔ v m = v n ∧ consistent c v).
+  { intros v. unfold c', buffered. rewrite consistent_insert_fresh, node_ok_buf by done.
+    split; intros [Hv Hc]; (split; [done|]); eapply reroute_consistent; eauto. }
+  split; [|split].
+  - intros x j f Hx Hf. unfold c', buffered in *. rewrite dom_insert, dom_reroute.
+    destruct (decide (f = m)) as [->|Hfm]; [clear; set_solver|].
+    assert (Hfd : f ∈ dom c); [|clear -Hfd; set_solver].
+    destruct (decide (x = m)) as [->|Hxm].
+    + rewrite lookup_insert in Hx. simplify_eq. simpl in Hf. apply elem_of_singleton in Hf. by subst.
+    + rewrite lookup_insert_ne, lookup_reroute in Hx by done. destruct (c !! x) as [i|] eqn:Hi; [|done]. simpl in Hx. simplify_eq.
+      case_bool_decide; [|by eapply Hcl]. simpl in Hf.
+      apply elem_of_union in Hf as [Hf|Hf]; [by apply elem_of_singleton in Hf|].
+      apply elem_of_difference in Hf as [Hf _]. by eapply Hcl.
+  - intros x. unfold c', buffered. destruct (decide (x = m)) as [->|Hxm].
+    + rewrite lookup_insert. apply not_elem_of_dom in Hm. by rewrite Hm.
+    + rewrite lookup_insert_ne, lookup_reroute by done. destruct (c !! x) as [i|]; [|done]. simpl.
+      eexists. split; [done|]. by case_bool_decide.
+  - split.
+    + intros v' [_ Hv']%Hchar. exists v'. split; [done|apply agrees_refl].
+    + intros v Hv. set (v' := λ x, if decide (x = m) then v n else v x).
+      assert (Hv'x : ∀ x, x ≠ m → v' x = v x) by (intros x Hx; unfold v'; by rewrite decide_False).
+      exists v'. split.
+      * apply Hchar. split; [|by eapply consistent_fresh_ext].
+        unfold v' at 1. rewrite decide_True by done. by rewrite Hv'x.
+      * intros x Hx. apply Hv'x. by intros ->.
+Qed.
+
+(* ------------------------------------------------------------------ limit_fanout: every accepted run *)
+Lemma fanout_steps_spec T : limit_tables_ok T = true → ∀ steps c k st c', closed c → fanout_steps T c k st steps = Ok c' →
+  closed c' ∧ dom c ⊆ dom c' ∧ inputs c' = inputs c ∧ outputs c' = outputs c ∧ equiv_on (dom c) c c' ∧
+  ∀ n, size (fanout c' n) ≤ k.
+Proof.
+  intros HT. induction steps as [|[[n f0] f1] rest IH]; intros c k st c' Hcl; simpl.
+  - destruct (forallb _ _) eqn:Hb; [|done]. intros [= <-]. split_and!; try done; [apply equiv_on_refl|].
+    intros n. destruct (decide (n ∈ dom c)) as [Hn|Hn].
+    + rewrite forallb_forall in Hb. apply Nat.leb_le, Hb. by apply elem_of_list_In, elem_of_elements.
+    + replace (fanout c n) with (∅ : gset string); [rewrite size_empty; lia|].
+      symmetry. apply leibniz_equiv, elem_of_equiv_empty. intros x (i & Hx & Hin)%elem_of_fanout.
+      apply Hn. by eapply Hcl.
+  - destruct (next_index st n) as [[i st']|]; [|done].
+    destruct (fanout_step T c k n f0 f1 i) as [c1| | |] eqn:Hs; try done. simpl. intros Hrest.
+    apply fanout_step_inv in Hs as (m & Hn & Hk & Hne & H0 & H1 & Hm & ->).
+    destruct (tables_parts T HT) as (_ & _ & Hh & _). rewrite Hh in Hrest.
+    destruct (buffered_spec c n m {[f0; f1]} Hcl Hn Hm) as (Hcl1 & Hat & Heq); [set_solver|].
+    destruct (IH _ _ _ _ Hcl1 Hrest) as (Hcl' & Hd & Hi & Ho & Heq' & Hb).
+    destruct (same_attrs_io _ _ Hat) as [Hi1 Ho1]. pose proof (same_attrs_dom _ _ Hat) as Hd1.
+    split_and!; [done|by etrans|congruence|congruence| |done].
+    eapply equiv_on_trans; [exact Hd1|exact Heq|exact Heq'].
+Qed.
+
+Theorem limit_fanout_spec T C k steps C' : limit_tables_ok T = true → closed (c_g C) →
+  limit_fanout_run_with T C k steps = Ok C' →
+  2 ≤ k ∧ c_name C' = c_name C ∧ c_bbs C' = c_bbs C ∧ closed (c_g C') ∧ dom (c_g C) ⊆ dom (c_g C') ∧
+  inputs (c_g C') = inputs (c_g C) ∧ outputs (c_g C') = outputs (c_g C) ∧
+  (∀ n, size (fanout (c_g C') n) ≤ k) ∧ equiv_on (dom (c_g C)) (c_g C) (c_g C').
+Proof.
+  intros HT Hcl. unfold limit_fanout_run_with. destruct (tables_parts T HT) as (_ & _ & _ & _ & Hmin). rewrite Hmin.
+  destruct (k <? 2)%nat eqn:Hk; [done|]. apply Nat.ltb_ge in Hk.
+  destruct (fanout_steps T (c_g C) k ls_init steps) as [c'| | |] eqn:Hs; try done. simpl. intros [= <-]. simpl.
+  destruct (fanout_steps_spec T HT _ _ _ _ _ Hcl Hs) as (? & ? & ? & ? & ? & ?). split_and!; done.
+Qed.
+Lemma limit_fanout_rejects T C k steps : limit_tables_ok T = true → k < 2 → limit_fanout_run_with T C k steps = Raise ValueError.
+Proof.
+  intros HT Hk. unfold limit_fanout_run_with. destruct (tables_parts T HT) as (_ & _ & _ & _ & ->).
+  apply Nat.ltb_lt in Hk. by rewrite Hk.
+Qed.
+
+(* ------------------------------------------------------------------ insert_registers: one flop *)
+Lemma consistent_agree_dom (c : circuit) v v' : closed c → agrees (dom c) v v' → consistent c v → consistent c v'.
+Proof.
+  intros Hcl Ha Hc n i Hn. eapply node_ok_ext; [| |by apply Hc].
+  - apply Ha. by apply elem_of_dom.
+  - intros f Hf. apply Ha. by eapply Hcl.
+Qed.
+Lemma node_ok_bbin v m o n : node_ok v m (mk_node BbIn o {[n]}) ↔ v m = v n.
+Proof.
+  rewrite node_ok_gate; [|unfold is_free; simpl; apply bool_decide_eq_false; set_solver|done|done].
+  simpl. by rewrite gate_val_single.
+Qed.
+Lemma node_ok_bbout v m o fi : node_ok v m (mk_node BbOut o fi) ↔ True.
+Proof. done. Qed.
+
+Definition spliced (g : circuit) (n q pd pc pq : string) : circuit :=
+  <[pd := mk_node BbIn false {[n]}]> (<[pc := mk_node BbIn false {[clk_name]}]> (<[pq := mk_node BbOut false ∅]>
+    (<[q := mk_node Buf false {[pq]}]> (reroute g n q (fanout g n))))).
+
+Lemma spliced_spec g n q pd pc pq : closed g → n ∈ dom g → clk_name ∈ dom g →
+  q ∉ dom g → pd ∉ dom g → pc ∉ dom g → pq ∉ dom g →
+  q ≠ pd → q ≠ pc → q ≠ pq → pd ≠ pc → pd ≠ pq → pc ≠ pq →
+  let g' := spliced g n q pd pc pq in
+  closed g' ∧ same_attrs g g' ∧ pq ∈ dom g' ∧ pd ∈ dom g' ∧
+  (∀ v, consistent g' v → v pq = v pd → consistent g v) ∧
+  (∀ v, consistent g v → ∃ v', consistent g' v' ∧ v' pq = v' pd ∧ agrees (dom g) v' v).
+Proof.
+  intros Hcl Hn Hclk Hq Hpd Hpc Hpq N1 N2 N3 N4 N5 N6 g'.
+  set (g0 := reroute g n q (fanout g n)).
+  assert (Hd0 : dom g0 = dom g) by apply dom_reroute.
+  assert (L1 : g0 !! q = None) by (apply not_elem_of_dom; by rewrite Hd0).
+  assert (L2 : (<[q := mk_node Buf false {[pq]}]> g0) !! pq = None).
+  { rewrite lookup_insert_ne by done. apply not_elem_of_dom. by rewrite Hd0. }
+  assert (L3 : (<[pq := mk_node BbOut false ∅]> (<[q := mk_node Buf false {[pq]}]> g0)) !! pc = None).
+  { rewrite !lookup_insert_ne by done. apply not_elem_of_dom. by rewrite Hd0. }
+  assert (L4 : (<[pc := mk_node BbIn false {[clk_name]}]> (<[pq := mk_node BbOut false ∅]> (<[q := mk_node Buf false {[pq]}]> g0))) !! pd = None).
+  { rewrite !lookup_insert_ne by done. apply not_elem_of_dom. by rewrite Hd0. }
+  assert (Hchar : ∀ v, consistent g' v ↔ v pd = v n ∧ v pc = v clk_name ∧ v q = v pq ∧ consistent g0 v).
+  { intros v. unfold g', spliced. fold g0.
+    rewrite (consistent_insert_fresh _ pd) by done. rewrite (consistent_insert_fresh _ pc) by done.
+    rewrite (consistent_insert_fresh _ pq) by done. rewrite (consistent_insert_fresh _ q) by done.
+    rewrite !node_ok_bbin, node_ok_bbout, node_ok_buf. tauto. }
+  assert (Hdom : dom g' = {[pd; pc; pq; q]} ∪ dom g).
+  { unfold g', spliced. fold g0. rewrite !dom_insert_L, Hd0. clear. set_solver. }
+  split_and!.
+  - intros x j f Hx Hf. rewrite Hdom.
+    assert (f ∈ ({[n; clk_name; pq; q]} : gset string) ∪ dom g); [|clear -H Hn Hclk; set_solver].
+    unfold g', spliced in Hx. fold g0 in Hx.
+    destruct (decide (x = pd)) as [->|X1]; [rewrite lookup_insert in Hx; simplify_eq; simpl in Hf; clear -Hf; set_solver|].
+    rewrite lookup_insert_ne in Hx by done.
+    destruct (decide (x = pc)) as [->|X2]; [rewrite lookup_insert in Hx; simplify_eq; simpl in Hf; clear -Hf; set_solver|].
+    rewrite lookup_insert_ne in Hx by done.
+    destruct (decide (x = pq)) as [->|X3]; [rewrite lookup_insert in Hx; simplify_eq; simpl in Hf; clear -Hf; set_solver|].
+    rewrite lookup_insert_ne in Hx by done.
+    destruct (decide (x = q)) as [->|X4]; [rewrite lookup_insert in Hx; simplify_eq; simpl in Hf; clear -Hf; set_solver|].
+    rewrite lookup_insert_ne in Hx by done. unfold g0 in Hx. rewrite lookup_reroute in Hx.
+    destruct (g !! x) as [i|] eqn:Hi; [|done]. simpl in Hx. simplify_eq.
+    case_bool_decide.
+    + simpl in Hf. apply elem_of_union in Hf as [Hf|Hf]; [apply elem_of_singleton in Hf; subst|].
+      * (* the new buffer q *) clear. set_solver.
+      * apply elem_of_difference in Hf as [Hf _]. apply elem_of_union_r. by eapply Hcl.
+    + apply elem_of_union_r. by eapply Hcl.
+  - intros x. unfold g', spliced. fold g0.
+    destruct (decide (x = pd)) as [->|X1]; [rewrite lookup_insert; apply not_elem_of_dom in Hpd; by rewrite Hpd|].
+    rewrite lookup_insert_ne by done.
+    destruct (decide (x = pc)) as [->|X2]; [rewrite lookup_insert; apply not_elem_of_dom in Hpc; by rewrite Hpc|].
+    rewrite lookup_insert_ne by done.
+    destruct (decide (x = pq)) as [->|X3]; [rewrite lookup_insert; apply not_elem_of_dom in Hpq; by rewrite Hpq|].
+    rewrite lookup_insert_ne by done.
+    destruct (decide (x = q)) as [->|X4]; [rewrite lookup_insert; apply not_elem_of_dom in Hq; by rewrite Hq|].
+    rewrite lookup_insert_ne by done. unfold g0. rewrite lookup_reroute. destruct (g !! x) as [i|]; [|done]. simpl.
+    eexists. split; [done|]. by case_bool_decide.
+  - rewrite Hdom. clear. set_solver.
+  - rewrite Hdom. clear. set_solver.
+  - intros v (E1 & E2 & E3 & Hc)%Hchar Et. eapply (reroute_consistent g n q (fanout g n)); eauto; congruence.
+  - intros v Hv.
+    set (v' := λ x, if decide (x = q ∨ x = pq ∨ x = pd) then v n else if decide (x = pc) then v clk_name else v x).
+    assert (Hold : ∀ x, x ∈ dom g → v' x = v x).
+    { intros x Hx. unfold v'. rewrite decide_False; [rewrite decide_False; [done|]|]; [intros ->; done|].
+      intros [->|[->| ->]]; done. }
+    assert (Hnew : v' q = v n ∧ v' pq = v n ∧ v' pd = v n ∧ v' pc = v clk_name).
+    { unfold v'. rewrite !decide_True by tauto. split_and!; try done.
+      rewrite decide_False, decide_True; [done|done|]. intros [?|[?|?]]; congruence. }
+    destruct Hnew as (Q1 & Q2 & Q3 & Q4).
+    exists v'. split_and!.
+    + apply Hchar. rewrite Q1, Q2, Q3, Q4, (Hold n), (Hold clk_name) by done. split_and!; try done.
+      assert (Hqn : v' q = v' n) by (by rewrite Q1, (Hold n)).
+      apply (reroute_consistent g n q (fanout g n) v' Hcl Hq (reflexivity _) Hqn).
+      eapply consistent_agree_dom; [done| |exact Hv]. intros x Hx. symmetry. by apply Hold.
+    + congruence.
+    + intros x Hx. by apply Hold.
+Qed.
